@@ -25,7 +25,10 @@ func (s *Sink) Write(p []byte) (int, error) {
 	if s.FailAt > 0 && (s.NCalls == s.FailAt || (s.Sticky && s.NCalls > s.FailAt)) {
 		s.Failed = true
 		n := s.Short
-		if n >= len(p) {
+		if s.Short < 0 {
+			// "full count plus error": legal for an io.Writer, and still a failure
+			n = len(p)
+		} else if n >= len(p) {
 			n = len(p) - 1
 		}
 		if n < 0 {
